@@ -160,9 +160,9 @@ def default_registry(datetime=False, disabled=()):
     r.add(replace_types=(IntString,), cls=FloatString)
     r.add(cls=BooleanString)
     if datetime:
-        r.add(cls=IsoDateString)
-        r.add(cls=IsoTimeString)
-        r.add(cls=IsoDatetimeString)
+        # what --datetime does (with an explicit registry instead of the process-global one)
+        from json_to_models.dynamic_typing import register_datetime_classes
+        register_datetime_classes(r)
     for name in disabled:
         r.remove_by_name(name)
     return r
